@@ -186,6 +186,7 @@ def report(mod, prop, tier, seed, merged, dead, nsh, wall):
         "known_findings_matched": {k: len(v) for k, v in matched.items()},
         "inconclusive_reasons": reasons,
         "repo": H.REPO,
+        "tier": tier,
     }
     cov.update(merged["notes"])
     if hasattr(mod, "finalize"):
